@@ -144,7 +144,7 @@ def ps_jobs(tier, levels=(0, 1, 2), cons=False, fault=False, D2=True):
             for acc in (True, False):
                 for lvl in levels:
                     for bl in ((10, 1) if tier == "quick" else (10, 2, 1, 0)):
-                        if tier == "quick" and (bl == 1 and (lvl != 0 or not acc)):
+                        if tier == "quick" and bl == 1 and (not acc or (lvl == 2) or (lvl == 1 and k0 != -1)):
                             continue
                         jobs.append(J("h_ps:HPS", D=1, k0=k0, complete_poll=cp, accelerate=acc, level=lvl, budget_left=bl,
                                       cons="bool" if cons else None, fault=fault, M=0))
@@ -181,6 +181,8 @@ def lb_jobs(tier, fault=False):
         for k0 in ((0, -1, -19, -20) if tier == "quick" else tuple(range(0, -23, -1))):
             for sc0 in range(0, ntry + 1):
                 jobs.append(J("h_lb:HLB", D=D, k0=k0, sc0=sc0, level=0, fault=fault))
+        for k0 in (-3, -4, -5):   # user tol_mesh = 2^-4 exactly: the mesh equal to the tolerance must not stop the run
+            jobs.append(J("h_lb:HLB", D=D, k0=k0, sc0=ntry, level=0, fault=fault, ktol=-4))
         jobs.append(J("h_lb:HLB", D=D, k0=-1, sc0=0, level=0, fault=fault, enough_points=False))
         jobs.append(J("h_lb:HLB", D=D, k0=-3, sc0=ntry, level=0, fault=fault, ssi_stale=True))
     return jobs
@@ -240,6 +242,73 @@ def fl_kind_jobs(tier):
                         if not record and n == 0:
                             continue
                         jobs.append(J("h_fl:HFL", D=D, n_filled=n, cache=max(n, 1), level=level, op="call", record=record, kind=kind, transform=False))
+    return jobs
+
+
+def im_jobs(tier, cons=False, fault=False):
+    jobs = []
+    for D in ((1,) if tier == "quick" else (1, 2)):
+        for level0 in (0, 1, 2):
+            for (B, nfs) in ((100, 10), (4, 10), (3, 2), (100, 0)):
+                if tier == "quick" and (B, nfs) == (3, 2) and level0 == 0:
+                    continue
+                jobs.append(J("h_im:HIM", D=D, npts=2, level0=level0, B=B, nfs=nfs, cons="bool" if cons else None, fault=fault, seed=(B == 100 and nfs == 10)))
+    if tier == "thorough":
+        jobs.append(J("h_im:HIM", D=1, npts=3, level0=0, B=100, nfs=10, cons="bool" if cons else None, fault=fault, seed=False))
+    else:
+        jobs.append(J("h_im:HIM", D=2, npts=2, level0=0, B=100, nfs=10, cons="bool" if cons else None, fault=fault, seed=False))
+    return jobs
+
+
+def tail_jobs(tier, fault=False):
+    jobs = []
+    for D in ((1, 2) if tier == "quick" else (1, 2, 3)):
+        for level in (0, 1, 2):
+            for it in ((0, 1, 2, 3) if (tier == "thorough" or D == 1) else (2,)):
+                for nfs in ((0, 1, 2, 3) if (tier == "thorough" or D == 1) else (1, 2)):
+                    if level == 0 and nfs not in (0, 2):
+                        continue
+                    jobs.append(J("h_tail:HTAIL", D=D, level=level, it=it, nfs=nfs, fault=fault, bounded=(D == 1)))
+    return jobs
+
+
+def sb_jobs(tier, cons=False):
+    jobs = []
+    ks = (0, -1, -10, -20) if tier == "quick" else tuple(range(0, -21, -2))
+    for k in ks:
+        jobs.append(J("h_sb:HSBounds", D=1, k=k))
+        jobs.append(J("h_sb:HSBounds", D=2, k=k, inf=[1]))
+    if tier == "thorough":
+        jobs.append(J("h_sb:HSBounds", D=2, k=-10))
+    names = ("affine", "tight", "unbounded", "log", "logtight", "offgrid", "offgrid2")
+    for g in names:
+        jobs.append(J("h_sb:HSInit", D=1, geom=[g], cons="bool" if cons else None, nonlinear=True))
+    for pair in (("log", "unbounded"), ("offgrid2", "offgrid2"), ("tight", "logtight"), ("affine", "log")):
+        jobs.append(J("h_sb:HSInit", D=2, geom=list(pair), cons="bool" if cons else None, nonlinear=True))
+    jobs.append(J("h_sb:HSInit", D=2, geom=["log", "offgrid2"], cons="bool" if cons else None, nonlinear=False))
+    return jobs
+
+
+def nb_jobs(tier):
+    jobs = []
+    for noise in (False, True):
+        jobs.append(J("h_nb:HNB", N=3, D=1, noise=noise))
+        jobs.append(J("h_nb:HNB", N=2, D=2, noise=noise))
+        jobs.append(J("h_nb:HNB", N=3, D=1, noise=noise, nmin=1, nmax=2, buf=0))
+        if tier == "thorough":
+            jobs.append(J("h_nb:HNB", N=4, D=1, noise=noise))
+            jobs.append(J("h_nb:HNB", N=3, D=2, noise=noise))
+            jobs.append(J("h_nb:HNB", N=3, D=2, noise=noise, ls=[0.5, 2.0]))
+            jobs.append(J("h_nb:HNB", N=3, D=1, noise=noise, ls="sym"))
+        jobs.append(J("h_nb:HFevals", N=3, D=2, noise=noise, nflag=2))
+        jobs.append(J("h_nb:HFevals", N=3, D=1, noise=noise, nflag=3))
+    jobs.append(J("h_nb:HNB", N=2, D=2, noise=True, ls=[0.5, 2.0]))
+    for spec in (True, False):
+        jobs.append(J("h_nb:HAddGP", N=2, D=2, specified=spec))
+        jobs.append(J("h_nb:HAddGP", N=1, D=1, specified=spec))
+    for D in (1, 2, 3):
+        for t in ((1, 2, 7, 50) if tier == "quick" else tuple(range(1, 51))):
+            jobs.append(J("h_nb:HAcq", n=2, D=D, t=t))
     return jobs
 
 
@@ -308,3 +377,104 @@ PROPS["C11"] = dict(
                 thorough="affine D=3; symbolic log coordinate next to an unbounded one; mixed problems with the symbolic coordinate free to be log or affine"),
     outside=["the 1e-9 rounding-error clause (reals have no rounding error)", "|bounds| > 1e300 where exp overflows", "log/exp are increasing functions linked as inverses and agreeing with the floating-point values at concrete arguments (over-approximation)"],
     time_limit=dict(quick=600, thorough=5400))
+
+# ---- add the initial design / tail harnesses to C03 and C04 ----------------------------------------
+C03_IM = {"func_count_is_number_of_target_calls", "reserve_is_min_of_setting_and_remaining", "budget_plus_reserve_is_original_budget",
+          "reserve_non_negative_and_design_within_reduced_budget_or_exhausted", "design_at_most_npts"}
+C03_TAIL = {"exactly_the_reserved_final_samples", "result_func_count_is_logger_count"}
+_c03 = PROPS["C03"]
+_c03_jobs0 = _c03["jobs"]
+_c03["jobs"] = lambda tier: _c03_jobs0(tier) + im_jobs(tier) + tail_jobs(tier)
+_c03["labels"] = _c03["labels"] | C03_IM | C03_TAIL
+_c03["required"] = sorted(set(_c03["required"]) | {"exactly_the_reserved_final_samples", "budget_plus_reserve_is_original_budget"})
+
+C04_IM = {"incumbent_value_is_minimum_of_log", "incumbent_is_logged_pair", "u_best_is_u", "fval_is_yval", "deterministic_fsd_zero"}
+C04_TAIL = {"deterministic_result_is_last_iterate", "x_is_inverse_transform_of_final_u", "result_fval_fsd_are_final_state", "result_target_type"}
+_c04 = PROPS["C04"]
+_c04_jobs0 = _c04["jobs"]
+_c04["jobs"] = lambda tier: _c04_jobs0(tier) + [j for j in im_jobs(tier) if j["params"]["level0"] == 0] + [j for j in tail_jobs(tier) if j["params"]["level"] == 0]
+_c04["labels"] = _c04["labels"] | C04_IM | C04_TAIL
+_c04["required"] = sorted(set(_c04["required"]) | {"incumbent_value_is_minimum_of_log", "deterministic_result_is_last_iterate"})
+
+# ------------------------------------------------------------------------------------------------ C05
+C05_IM = {"noise_test_made", "first_two_calls_at_start_point", "stochastic_iff_values_differ_more_than_tol_noise", "configured_noise_level_kept",
+          "noise_test_not_logged", "fsd_is_logged_sd_of_incumbent", "fsd_is_noise_size"}
+C05_TAIL = {"returned_point_is_recorded_iterate_with_lowest_quantile", "final_samples_at_returned_point_not_recorded",
+            "yval_vec_is_fresh_sample_plus_earlier_observation", "yval_vec_is_the_fresh_samples", "fval_is_mean_of_yval_vec",
+            "fsd_is_standard_error_of_yval_vec", "result_yval_vec_is_copy", "ysd_vec_holds_reported_sds",
+            "ysd_vec_second_entry_is_sd_logged_at_returned_point", "no_final_samples_keeps_history_estimate", "exactly_the_reserved_final_samples",
+            "history_re_evaluated_once", "result_target_type", "x_is_inverse_transform_of_final_u", "no_reselection_before_first_poll"}
+PROPS["C05"] = dict(
+    jobs=lambda tier: im_jobs(tier) + [j for j in tail_jobs(tier) if j["params"]["level"] > 0],
+    labels=C05_IM | C05_TAIL, required=sorted((C05_IM | C05_TAIL) - {"no_reselection_before_first_poll"}),
+    bounds=dict(quick="noise test and initial design: D=1 (and one D=2 job), configured noise level 0/1/2, budgets {100,4,3}, noise_final_samples {10,2,0}; tail: D<=2, <=4 recorded iterates, noise_final_samples 0..3",
+                thorough="D<=2 initial design, D<=3 tail, every (iterates, samples) pair up to 4 x 4"),
+    outside=["the GP re-estimation of the recorded iterates (_re_evaluate_history_) is a stub", "statistical quality of the estimate"],
+    time_limit=dict(quick=600, thorough=3600))
+
+# ------------------------------------------------------------------------------------------------ C15
+C15_LABELS = {"training_rows_sorted_by_distance", "training_pair_is_logged_pair", "training_noise_is_logged_sd_squared", "no_noise_column_without_noise",
+              "nearest_first", "no_closer_row_left_out", "training_set_size_rule", "all_flagged_rows_used", "training_set_extended_by_one",
+              "old_training_pairs_kept", "new_training_pair_is_the_observation", "posterior_updated", "acquisition_is_mean_minus_sqrt_beta_sd"}
+PROPS["C15"] = dict(
+    jobs=nb_jobs, labels=C15_LABELS, required=sorted(C15_LABELS),
+    bounds=dict(quick="neighbour selection: <=3 logged rows, D<=2, scalar and concrete per-coordinate length scales, n_train_min/max in {(2,3),(1,2)}; posterior update: <=2 training rows; acquisition: D<=3, t in {1,2,7,50}",
+                thorough="4 logged rows, symbolic length scale for D=1, t in 1..50"),
+    outside=["what gpyreg does with the training set", "periodic variables"],
+    time_limit=dict(quick=600, thorough=3600))
+
+# ------------------------------------------------------------------------------------------------ C10
+C10_LABELS = {"target_called_once", "target_exception_propagates_same_type", "invalid_value_raises_ValueError", "failure_leaves_count",
+              "failure_leaves_log", "valid_value_accepted", "func_count_plus_one", "fault_escapes_unchanged", "no_call_after_fault",
+              "fault_escapes_loop_body", "func_count_counts_valid_calls_only"}
+PROPS["C10"] = dict(
+    jobs=lambda tier: fl_kind_jobs(tier) + ps_jobs("quick", levels=(0, 2), fault=True, D2=False)[:: (1 if tier == "thorough" else 3)] +
+    ss_jobs(tier, levels=(0, 2), fault=True) + [j for j in lb_jobs("quick", fault=True) if j["params"]["k0"] in (0, -1)] +
+    im_jobs(tier, fault=True) + [j for j in tail_jobs(tier, fault=True) if j["params"]["level"] > 0 and j["params"]["it"] > 0 and j["params"]["nfs"] > 0],
+    labels=C10_LABELS, required=sorted(C10_LABELS - {"fault_escapes_loop_body", "valid_value_accepted"}),
+    bounds=dict(quick="logger: every fault kind of the statement x noise level x record/no-record, D=2, 0 or 2 logged rows; fault position symbolic (a fork at every target call) in the initial design, poll step (D=1), search step (D<=2), loop body and final sampling",
+                thorough="logger D in {1,2}; all poll-step configurations of C13 quick with fault injection"),
+    outside=["a complex value with zero imaginary part", "whole runs: the position k of the faulty call is covered per unit by induction over the loop"],
+    time_limit=dict(quick=600, thorough=3600))
+
+# ------------------------------------------------------------------------------------------------ C01
+C01_LABELS = {"forward_output_in_internal_box", "inverse_output_in_original_box", "internal_box_contains_unit_box",       # H-VT
+              "target_gets_inverse_transformed_point", "target_gets_point", "append_exact",                                  # H-FL
+              "rows_inside_box", "rows_are_input_rows",                                                                     # H-CC
+              "search_bounds_inside_hard_box", "search_bounds_ordered", "search_bounds_on_mesh", "u0_in_internal_box",     # H-SB
+              "constraint_argument_in_hard_box", "valid_definition_not_rejected_by_init", "internal_bounds_are_transformed_bounds",
+              "constraint_argument_is_inverse_transform_of_u0", "state_u_is_u0",
+              "poll_point_in_hard_box", "poll_point_on_frame",                                                               # H-PS
+              "evaluated_point_in_search_box", "evaluated_point_in_hard_box", "evaluated_point_is_projected_gridded_candidate",  # H-SS
+              "design_point_in_search_box", "first_call_at_start_point", "first_two_calls_at_start_point",                   # H-IM
+              "x_is_inverse_transform_of_final_u", "final_samples_at_returned_point_not_recorded",                           # H-TAIL
+              "x0_strictly_inside", "logger_uses_instance_transformer"}                                                      # H-BC
+PROPS["C01"] = dict(
+    jobs=lambda tier: vt_jobs(tier) + [j for j in c12_jobs("quick") if j["params"].get("transform") and j["params"]["record"]] +
+    [j for j in cc_jobs(tier, cons_modes=(None,)) if tier == "thorough" or j["params"]["N"] * j["params"]["D"] <= 2 or j["params"]["M"] == 0] +
+    sb_jobs(tier, cons=True) + ps_jobs("quick", levels=(0,), D2=(tier == "thorough"))[:: (1 if tier == "thorough" else 2)] + ss_jobs(tier, levels=(0,)) +
+    [j for j in im_jobs(tier) if j["params"]["nfs"] == 10] + [j for j in tail_jobs("quick") if j["params"]["nfs"] in (0, 2)] +
+    [J("h_bc:HBC", D=1, pat=_pat(1), spell={}, nonlinear=False, cons="bool"), J("h_bc:HBC", D=1, pat=_pat(1, x0=None), spell={}, nonlinear=False, cons="real")],
+    labels=C01_LABELS, required=sorted(C01_LABELS - {"valid_definition_not_rejected_by_init", "target_gets_point"}),
+    bounds=dict(quick="clamp lemma: as C11; logger: D=2 with transformer stub; filter: as C17; search bounds: D<=2, mesh 2^k k in {0,-1,-10,-20}, +-inf bounds; mesh-snapped x0: 7 concrete bound geometries (affine, tight, unbounded, log, off-grid) with symbolic x0; evaluation sites of poll/search/initial design/tail: D<=2",
+                thorough="deeper bounds of the component harnesses"),
+    outside=["floating-point rounding of ginv(g(x)) near a bound for symbolic bounds (real arithmetic); concrete-bound jobs use the floating-point constants of the transform",
+             "periodic variables (unsupported by the code)", "the run-level statement follows by induction: every evaluated point is a filtered row or the incumbent (I_box), the logger hands inverse_transf(u) to the target, inverse_transf clamps"],
+    time_limit=dict(quick=900, thorough=5400))
+
+# ------------------------------------------------------------------------------------------------ C02
+C02_LABELS = {"oracle_called_once", "oracle_gets_inverse_transformed_rows", "returned_rows_feasible", "feasible_count",           # H-CC
+              "poll_point_oracle_feasible", "evaluated_point_oracle_feasible", "design_point_oracle_feasible",                   # steps
+              "x0_rejection_only_if_oracle_violated", "accepted_snapped_x0_feasible", "snapped_x0_feasibility_checked",          # H-SB
+              "accepted_x0_feasible", "x0_feasibility_checked", "target_never_called_by_constructor", "constraint_argument_in_hard_box",
+              "constraint_argument_is_inverse_transform_of_u0"}
+PROPS["C02"] = dict(
+    jobs=lambda tier: cc_jobs(tier, cons_modes=("bool", "real")) + [j for j in ps_jobs("quick", levels=(0,), cons=True, D2=False)][:: (1 if tier == "thorough" else 2)] +
+    ss_jobs(tier, levels=(0,), cons=True) + [j for j in im_jobs(tier, cons=True) if j["params"]["nfs"] == 10] + [j for j in sb_jobs(tier, cons=True) if "HSInit" in j["harness"]] +
+    [J("h_bc:HBC", D=1, pat=_pat(1), spell={}, nonlinear=False, cons="bool"), J("h_bc:HBC", D=1, pat=_pat(1), spell={}, nonlinear=False, cons="real"),
+     J("h_bc:HBC", D=2, pat=_pat(2, x0=None), spell={}, nonlinear=False, cons="bool")],
+    labels=C02_LABELS, required=sorted(C02_LABELS),
+    bounds=dict(quick="constraint oracle = one fresh symbolic answer per queried row (subsumes every constraint geometry); filter as C17 with bool and real-valued oracles; evaluation sites of poll (D=1), search (D<=2), initial design; x0 checks in the constructor (D<=2) and after mesh snapping (7 geometries)",
+                thorough="deeper bounds of the component harnesses"),
+    outside=["the returned x is the incumbent or a recorded iterate, feasible by the invariant that incumbents are evaluated points (I_feas)", "ES-internal filtering (H-ES, C18)"],
+    time_limit=dict(quick=900, thorough=5400))
